@@ -88,7 +88,7 @@ def handle (line : String) : String :=
       match SNF.run snfFuel A with
       | .error _ => pure "err detZero"
       | .ok o =>
-        pure s!"ok {showM3Int o.D} {showM3Int o.P} {showM3Int o.Q} {showB o.finished} {showB o.xok} {showB o.finOk} {o.attempts} {showB (isSNF A o)}"
+        pure s!"ok {showM3Int o.D} {showM3Int o.P} {showM3Int o.Q} {showB o.finished} {showB o.xok} {showB o.finOk} {o.attempts} {showB (isSNF A o)} {showB (hasChain o)}"
     | "supercell" =>
       let (old, c) ← c.nat?
       let (L, c) ← readM3Rat c
@@ -124,6 +124,15 @@ def handle (line : String) : String :=
       let (pts, c) ← readV3Ints c n
       if !c.atEnd then none
       pure (showB (isCompleteResidueSystem S ⟨D, P, Pinv, Q, Qinv⟩ pts.toList))
+    | "framecheck" =>
+      let (S, c) ← readM3Int c
+      let (D, c) ← readM3Int c
+      let (P, c) ← readM3Int c
+      let (Pinv, c) ← readM3Int c
+      let (Q, c) ← readM3Int c
+      let (Qinv, c) ← readM3Int c
+      if !c.atEnd then none
+      pure (showB (frameComplete S ⟨D, P, Pinv, Q, Qinv⟩))
     | "stables" =>
       let ⟨_, _, T, c⟩ ← readSTables c
       if !c.atEnd then none
